@@ -43,6 +43,16 @@ CHECKS = {
     note='equality of fitted values/errors/flags between the two runs needs the optimiser and is not decided; selector kernel: 3x3 island with 2 symbolic pixels; slices keep only the statements assigning the anchored names.',
     technique='relational symbolic execution of the real Python source / AST slices on z3 terms, z3 decides; models replayed on real estimate_lmfit_parinfo / find_islands',
     design='4/C13'),
+ 'C10': dict(
+    text='The real MIMAS.mask_plane, the plane loop of mask_file (I/O faked) and mask_table run with the WCS and the region membership as UNINTERPRETED functions and symbolic pixel values (SymArray turns boolean-mask assignment into per-element ite): z3 decides for every image shape up to 4x3/3x4 (all rows!=cols combinations), 2-D/3-D/4-D data, negate on/off, that element [i,j] is blanked iff its FITS pixel centre (x=j+1,y=i+1) is outside (inside with negate) the region and every other value is untouched; tables of 0-4 rows incl. undefined coordinates and custom column names keep exactly the rows not inside, in order.',
+    note='holds for every interpretation of the WCS and region, hence every projection/CRPIX/region/depth; wcslib, astropy Table and FITS I/O are real only in the replay oracle (30x40 SIN image, circular region; 6-row table with NaN coordinates); Region.sky_within false for non-finite input is decided in C08.',
+    technique='symbolic execution of the real Python source with uninterpreted-function stubs for WCS and membership (z3 EUF), z3 decides; models replayed with real astropy WCS / Region / Table',
+    design='4/C10'),
+ 'C14': dict(
+    text='The real AeRes.make_model runs with sky2pix_ellipse stubbed to symbolic pixel-frame parameters (centre, FWHMs, angle, peak all symbolic); box corners are concretised by bounded case split. z3 decides per path: every rendered pixel equals peak*exp(-(u^2/sx^2+v^2/sy^2)/2) with centre (xo-1,yo-1), sigma=FWHM*FWHM2CC, theta CCW from x (exponent identity via normaliser); the rendered set is exactly the image part of the 5*FWHM box; a source is skipped only when its centre is off the image; two sources add; mask mode blanks exactly {model >= threshold}.',
+    note='partial: residual<1e-3 after subtracting an extracted catalogue needs the optimiser; sky2pix_ellipse is C16; float32 and FITS I/O outside; images up to 3x3 (thorough 4x3); FWHM2CC checked as a constant.',
+    technique='symbolic execution of the real Python source on z3 terms with bounded index concretisation; sympy normalisation then z3 decides; models replayed with a real WCSHelper against an independent Gaussian renderer',
+    design='4/C14'),
 }
 NA = {}
 ALL = ['C%02d' % i for i in range(1, 21)]
